@@ -1,0 +1,77 @@
+//! Verification-only gate points for the language server (compiled only with `--cfg incan_verif`).
+//!
+//! A gate is a one-shot async barrier placed immediately before an `await` of `analyze_document`,
+//! `collect_dependency_modules` or `did_close`. A verification harness that drives the handlers by
+//! hand runs every handler future inside `HANDLER.scope(id, fut)`; such a handler then parks at each
+//! gate until the harness opens it, which lets the harness realise any await-level interleaving.
+//! Outside a `HANDLER` scope (the normal server, every test) `gate` returns at once and the registry
+//! stays empty.
+#![cfg(incan_verif)]
+
+use std::sync::Mutex;
+
+use tokio::sync::oneshot;
+use tower_lsp::lsp_types::Url;
+
+tokio::task_local! {
+    /// Identity of the handler the harness is driving. Unset everywhere else.
+    pub static HANDLER: u64;
+}
+
+/// One handler parked at a gate: `(handler, label, uri, version)`; `version` is `-1` where the
+/// handler has none (`did_close`).
+pub type Waiting = (u64, &'static str, String, i64);
+
+struct Entry {
+    key: Waiting,
+    tx: oneshot::Sender<()>,
+}
+
+static REGISTRY: Mutex<Vec<Entry>> = Mutex::new(Vec::new());
+
+fn registry() -> std::sync::MutexGuard<'static, Vec<Entry>> {
+    REGISTRY.lock().unwrap_or_else(|e| e.into_inner())
+}
+
+/// Park the current handler at the gate `(label, uri, version)` until the harness opens it.
+/// No-op when the caller is not running inside a `HANDLER` scope.
+pub async fn gate(label: &'static str, uri: &Url, version: Option<i32>) {
+    let Ok(handler) = HANDLER.try_with(|h| *h) else {
+        return;
+    };
+    let (tx, rx) = oneshot::channel();
+    let key = (handler, label, uri.to_string(), version.map(i64::from).unwrap_or(-1));
+    registry().push(Entry { key, tx });
+    let _ = rx.await;
+}
+
+/// The gates at which handlers are parked right now, oldest first.
+pub fn waiting() -> Vec<Waiting> {
+    registry().iter().map(|e| e.key.clone()).collect()
+}
+
+/// Open the gate at which `handler` is parked (a handler is parked at one gate at most).
+/// Returns the gate's key, or `None` if that handler is not parked.
+pub fn open_handler(handler: u64) -> Option<Waiting> {
+    let mut reg = registry();
+    let i = reg.iter().position(|e| e.key.0 == handler)?;
+    let e = reg.remove(i);
+    let _ = e.tx.send(());
+    Some(e.key)
+}
+
+/// Open the oldest parked gate with this `(label, uri, version)` key.
+pub fn open(label: &str, uri: &str, version: i64) -> Option<Waiting> {
+    let mut reg = registry();
+    let i = reg
+        .iter()
+        .position(|e| e.key.1 == label && e.key.2 == uri && e.key.3 == version)?;
+    let e = reg.remove(i);
+    let _ = e.tx.send(());
+    Some(e.key)
+}
+
+/// Forget every parked gate (their handlers stay suspended until dropped).
+pub fn reset() {
+    registry().clear();
+}
